@@ -6,17 +6,24 @@ executeStage / completeStage / complete, baseStage.Execute, pool.execTask's reco
 LeafExecuteContext.SendResponse).  Every theorem quantifies over ALL stage trees, ALL outcome
 assignments and ALL schedules (`Reachable` = every sequence of atomic steps of every goroutine).
 
-`cfg.arg` is the regenerated fact "which value completeStage hands to complete":
-`own` (the source as it is) or `first` (fixes/C19-first-error.patch); `cfg.stageRecover` the
-regenerated fact "executeStage recovers a panic of the stage it started and completes it"
-(`false` = the source as it is, `true` = fixes/C19-stage-recover.patch).
+A stage may panic in `Plan()`, in its execution or in `NextStages()`, and its pool may reject its
+task (stopped pool / cancelled context).  Three regenerated facts select the variant of the model:
+`cfg.arg` = which value completeStage hands to complete (`own`, or `first` = fix 529944d);
+`cfg.stageRecover` = executeStage recovers a panic of the stage it started and completes it (fix
+b04bf84); `cfg.rejectNotifies` = workerPool.Submit calls the task's handler when it rejects the task
+(fixes/C19-reject-notify.patch; `false` = the source as it is).
 
-  at_most_once                    full strength, both variants
-  exactly_once_no_panic           full strength, both variants
+  at_most_once                    full strength, all variants
+  exactly_once_clean              full strength, all variants: nothing in the tree loses a completion
+                                  under cfg ⇒ exactly one callback, after every started stage finished
+  exactly_once_no_panic           corollary: no panic, no rejected task
+  completion_under_panic          corollary for `stageRecover`: ANY panics (Plan / execution /
+                                  NextStages, inline or pooled, root or not), no rejected task;
+                                  FALSE without `stageRecover` (Neg.completion_under_panic_fails)
+  completion_under_rejection      corollary for `stageRecover` + `rejectNotifies`: every tree;
+                                  FALSE without `rejectNotifies` (Neg.completion_under_rejection_fails)
   error_carried                   full strength for `first`;  FALSE for `own` (Neg.error_carried_fails_own)
   error_carried_partial           all variants: error carried when the stage that completes last failed
-  completion_under_panic          full strength for `stageRecover` (fixes/C19-stage-recover.patch);
-                                  FALSE without it (Neg.completion_under_panic_fails)
   completion_under_panic_partial  all variants: panics only where the code recovers *and* completes them
 -/
 import LinVerif.Lemmas.C19Carried
@@ -41,8 +48,12 @@ def ErrorCarried (cfg : Cfg) : Prop :=
 def CompletesOnce (cfg : Cfg) (root : Stage) : Prop :=
   ∀ s, Reachable cfg (init root) s → Terminal s → s.sh.fired.length = 1
 
-/-- … whatever the stages do (returning, failing or panicking) -/
-def CompletionUnderPanic (cfg : Cfg) : Prop := ∀ root, CompletesOnce cfg root
+/-- … whatever the stages do (returning, failing or panicking — in `Plan()`, in the execution or in
+`NextStages()`), as long as every pool accepts every task -/
+def CompletionUnderPanic (cfg : Cfg) : Prop := ∀ root, root.noReject = true → CompletesOnce cfg root
+
+/-- … even when a pool rejects a task (stopped pool, cancelled query context) -/
+def CompletionUnderRejection (cfg : Cfg) : Prop := ∀ root, CompletesOnce cfg root
 
 /-! ## at most once -/
 
@@ -81,16 +92,26 @@ theorem response_at_most_once (cfg : Cfg) (root : Stage) (s : State)
 
 /-! ## exactly once, after every started stage has finished, when no stage panics -/
 
-/-- **exactly_once_no_panic.** If no stage of the tree panics then, for every schedule, at the end
-of the run the callback has fired exactly once, and when it fired every stage that was ever
-started had finished (`f.finished` = number of stages registered in the whole run). -/
-theorem exactly_once_no_panic (cfg : Cfg) (root : Stage) (hnp : root.noPanic = true) (s : State)
+/-- **exactly_once_clean** (the general form). If nothing in the tree loses a completion under
+`cfg` (`Stage.clean`: a panic only if `executeStage` recovers and completes the stage, a rejected
+task only if the pool notifies the handler) then, for every schedule, at the end of the run the
+callback has fired exactly once, and when it fired every stage that was ever started had finished. -/
+theorem exactly_once_clean (cfg : Cfg) (root : Stage) (hc : root.clean cfg = true) (s : State)
     (hr : Reachable cfg (init root) s) (ht : Terminal s) :
     ∃ f, s.sh.fired = [f] ∧ f.finished = s.sh.registered ∧ f.registered = s.sh.registered
       ∧ s.sh.finished = s.sh.registered ∧ s.sh.pending = 0 := by
-  rcases invNP_reachable (Or.inr hnp) hr with hi | hm
+  rcases invNP_reachable hc hr with hi | hm
   · exact absurd ht (initPhase_not_terminal hi)
   · exact mainNP_terminal hm (invOnce_reachable hr) ht
+
+/-- **exactly_once_no_panic.** If no stage of the tree panics (and no task is rejected) then, for
+every variant and every schedule, at the end of the run the callback has fired exactly once, and
+when it fired every stage that was ever started had finished. -/
+theorem exactly_once_no_panic (cfg : Cfg) (root : Stage) (hnp : root.noPanic = true) (s : State)
+    (hr : Reachable cfg (init root) s) (ht : Terminal s) :
+    ∃ f, s.sh.fired = [f] ∧ f.finished = s.sh.registered ∧ f.registered = s.sh.registered
+      ∧ s.sh.finished = s.sh.registered ∧ s.sh.pending = 0 :=
+  exactly_once_clean cfg root (Stage.clean_of_noPanic cfg root hnp) s hr ht
 
 /-- … and the request produces exactly one response. -/
 theorem one_response_no_panic (cfg : Cfg) (root : Stage) (hnp : root.noPanic = true) (s : State)
@@ -113,9 +134,9 @@ theorem runs_terminate (cfg : Cfg) (root : Stage) :
 /-- **error_carried** (full strength; the repaired step order `complete(sm.firstError())`, with or
 without the stage-level recover).  For every tree, outcome assignment and schedule: if some stage
 had returned an error or panicked when the callback fired, the callback's argument is an error. -/
-theorem error_carried (sr : Bool) : ErrorCarried ⟨.first, sr⟩ := by
+theorem error_carried (sr rn : Bool) : ErrorCarried ⟨.first, sr, rn⟩ := by
   intro root s hr f hf
-  rcases invEC_reachable (cfg := ⟨.first, sr⟩) rfl hr with hi | hm
+  rcases invEC_reachable (cfg := ⟨.first, sr, rn⟩) rfl hr with hi | hm
   · rw [hi.1] at hf; simp [init] at hf
   · exact hm.res f hf
 
@@ -142,38 +163,57 @@ theorem completion_under_panic_partial (cfg : Cfg) (root : Stage)
     · exact absurd ht (initPhase_not_terminal hi)
     · exact (invOnce_reachable hr).2 (rec_terminal_completed hab ht)
   | true =>
-    rcases invNP_reachable (Or.inl hsr) hr with hi | hm
-    · exact absurd ht (initPhase_not_terminal hi)
-    · obtain ⟨f, hf, _⟩ := mainNP_terminal hm (invOnce_reachable hr) ht
-      rw [hf]; rfl
+    have hc := Stage.clean_of_noReject (cfg := cfg) hsr root (Stage.noReject_of_recoverable true root hrec)
+    obtain ⟨f, hf, _⟩ := exactly_once_clean cfg root hc s hr ht
+    rw [hf]; rfl
 
-/-- **completion_under_panic** (full strength; the repaired `executeStage` that recovers a panic of
-the stage it started and completes that stage — with either `complete` argument).  For every tree,
-every outcome assignment *including panics anywhere* and every schedule: at the end of the run the
+/-- **completion_under_panic** (full strength; `executeStage` recovers a panic of the stage it
+started and completes that stage — the source since fix b04bf84).  For every tree whose pools accept
+every task, every outcome assignment *including panics anywhere* — in `Plan()`, in the execution,
+in `NextStages()`; inline or pooled; root or not — and every schedule: at the end of the run the
 callback has fired exactly once, and when it fired every stage ever started had finished. -/
-theorem completion_under_panic (arg : CompleteArg) (root : Stage) (s : State)
-    (hr : Reachable ⟨arg, true⟩ (init root) s) (ht : Terminal s) :
+theorem completion_under_panic (arg : CompleteArg) (rn : Bool) (root : Stage) (hrej : root.noReject = true)
+    (s : State) (hr : Reachable ⟨arg, true, rn⟩ (init root) s) (ht : Terminal s) :
     ∃ f, s.sh.fired = [f] ∧ f.finished = s.sh.registered ∧ f.registered = s.sh.registered
-      ∧ s.sh.finished = s.sh.registered ∧ s.sh.pending = 0 := by
-  rcases invNP_reachable (cfg := ⟨arg, true⟩) (Or.inl rfl) hr with hi | hm
-  · exact absurd ht (initPhase_not_terminal hi)
-  · exact mainNP_terminal hm (invOnce_reachable hr) ht
+      ∧ s.sh.finished = s.sh.registered ∧ s.sh.pending = 0 :=
+  exactly_once_clean _ root (Stage.clean_of_noReject (cfg := ⟨arg, true, rn⟩) rfl root hrej) s hr ht
 
-theorem completion_under_panic_stmt (arg : CompleteArg) : CompletionUnderPanic ⟨arg, true⟩ := by
+theorem completion_under_panic_stmt (arg : CompleteArg) (rn : Bool) : CompletionUnderPanic ⟨arg, true, rn⟩ := by
+  intro root hrej s hr ht
+  obtain ⟨f, hf, _⟩ := completion_under_panic arg rn root hrej s hr ht
+  rw [hf]; rfl
+
+/-- **completion_under_rejection** (full strength; additionally `workerPool.Submit` calls the
+task's handler when it rejects a task — fixes/C19-reject-notify.patch).  For EVERY tree — panics
+anywhere, tasks rejected by a stopped pool or a cancelled context — and every schedule: exactly one
+callback, fired after every started stage has finished. -/
+theorem completion_under_rejection (arg : CompleteArg) (root : Stage)
+    (s : State) (hr : Reachable ⟨arg, true, true⟩ (init root) s) (ht : Terminal s) :
+    ∃ f, s.sh.fired = [f] ∧ f.finished = s.sh.registered ∧ f.registered = s.sh.registered
+      ∧ s.sh.finished = s.sh.registered ∧ s.sh.pending = 0 :=
+  exactly_once_clean _ root (Stage.clean_of_repaired (cfg := ⟨arg, true, true⟩) rfl rfl root) s hr ht
+
+theorem completion_under_rejection_stmt (arg : CompleteArg) : CompletionUnderRejection ⟨arg, true, true⟩ := by
   intro root s hr ht
-  obtain ⟨f, hf, _⟩ := completion_under_panic arg root s hr ht
+  obtain ⟨f, hf, _⟩ := completion_under_rejection arg root s hr ht
   rw [hf]; rfl
 
 /-! ## non-vacuity -/
 
 /-- fan-out 2 under a synchronous root, one pooled child failing: a complete run -/
-def treeA : Stage := .mk false .ok [.mk true .error [], .mk true .ok []]
+def treeA : Stage := .mk .inline false .ok [.mk .pooled false .error [], .mk .pooled false .ok []]
 /-- all-synchronous: the root succeeds, its only child fails -/
-def treeS : Stage := .mk false .ok [.mk false .error []]
+def treeS : Stage := .mk .inline false .ok [.mk .inline false .error []]
 /-- a synchronous stage panics inside a pooled parent's completion handler -/
-def treeB : Stage := .mk false .ok [.mk true .ok [.mk false .panic []]]
+def treeB : Stage := .mk .inline false .ok [.mk .pooled false .ok [.mk .inline false .panic []]]
 /-- the pooled child's own task panics: recovered and completed -/
-def treeR : Stage := .mk false .ok [.mk true .panic [], .mk true .ok []]
+def treeR : Stage := .mk .inline false .ok [.mk .pooled false .panic [], .mk .pooled false .ok []]
+/-- a pooled, non-root stage whose `Plan()` panics (inline, before it is submitted), a sibling after it -/
+def treeP : Stage := .mk .inline false .ok [.mk .pooled true .ok [], .mk .pooled false .ok []]
+/-- `NextStages()` of a pooled stage panics -/
+def treeN : Stage := .mk .inline false .ok [.mk .pooled false .nextPanic [.mk .inline false .ok []]]
+/-- the pool rejects the task of the only child -/
+def treeX : Stage := .mk .inline false .ok [.mk .rejected false .ok []]
 
 /-- child 1 (fails) finishes first, child 2 (succeeds) last -/
 def schedFailFirst : List Nat := List.replicate 12 0 ++ [1, 1, 1] ++ [2, 2, 2, 2]
@@ -185,17 +225,17 @@ example : treeR.recoverable true = true := by decide
 example : treeB.recoverable true = false := by decide
 
 /-- the hypotheses of `exactly_once_no_panic` are met by a run with concurrency and a failure -/
-example : ∃ s, Reachable ⟨.own, false⟩ (init treeA) s ∧ Terminal s ∧ s.sh.registered = 3 :=
-  match h : runSched ⟨.own, false⟩ (init treeA) schedFailLast with
+example : ∃ s, Reachable ⟨.own, false, false⟩ (init treeA) s ∧ Terminal s ∧ s.sh.registered = 3 :=
+  match h : runSched ⟨.own, false, false⟩ (init treeA) schedFailLast with
   | some s => ⟨s, runSched_reachable _ _ _ Reachable.refl h,
       terminal_of_terminalB (by
-        have : (runSched ⟨.own, false⟩ (init treeA) schedFailLast).map terminalB = some true := by decide
+        have : (runSched ⟨.own, false, false⟩ (init treeA) schedFailLast).map terminalB = some true := by decide
         rw [h] at this; simpa using this),
       by
-        have : (runSched ⟨.own, false⟩ (init treeA) schedFailLast).map (·.sh.registered) = some 3 := by decide
+        have : (runSched ⟨.own, false, false⟩ (init treeA) schedFailLast).map (·.sh.registered) = some 3 := by decide
         rw [h] at this; simpa using this⟩
   | none => by
-    have : (runSched ⟨.own, false⟩ (init treeA) schedFailLast).isSome = true := by decide
+    have : (runSched ⟨.own, false, false⟩ (init treeA) schedFailLast).isSome = true := by decide
     rw [h] at this; cases this
 
 /-! ## where the source as it is violates the property -/
@@ -205,19 +245,19 @@ namespace Neg
 /-- (a) the source as it is: pooled sibling 1 fails and completes first, pooled sibling 2 succeeds
 and completes last ⇒ exactly one callback, with `err = nil`, although a stage had failed -/
 theorem error_lost_fail_first_ok_last :
-    outcome ⟨.own, false⟩ treeA schedFailFirst = some ([⟨false, false, true, 3, 3⟩], 0, true) := by decide
+    outcome ⟨.own, false, false⟩ treeA schedFailFirst = some ([⟨false, false, true, 3, 3⟩], 0, true) := by decide
 
 /-- the reverse completion order reports the error (so the outcome depends on the schedule) -/
 theorem error_kept_fail_last :
-    outcome ⟨.own, false⟩ treeA schedFailLast = some ([⟨true, true, true, 3, 3⟩], 0, true) := by decide
+    outcome ⟨.own, false, false⟩ treeA schedFailLast = some ([⟨true, true, true, 3, 3⟩], 0, true) := by decide
 
 /-- (a), no concurrency needed: a synchronous child fails, its synchronous parent completes last
 with `nil` ⇒ the only possible run reports success -/
 theorem error_lost_sync_child :
-    outcome ⟨.own, false⟩ treeS (List.replicate 13 0) = some ([⟨false, false, true, 2, 2⟩], 0, true) := by decide
+    outcome ⟨.own, false, false⟩ treeS (List.replicate 13 0) = some ([⟨false, false, true, 2, 2⟩], 0, true) := by decide
 
 /-- the full-strength statement is false for the source as it is -/
-theorem error_carried_fails_own : ¬ ErrorCarried ⟨.own, false⟩ := by
+theorem error_carried_fails_own : ¬ ErrorCarried ⟨.own, false, false⟩ := by
   intro h
   obtain ⟨s, hr, _, hf, _⟩ := outcome_elim error_lost_fail_first_ok_last
   have := h treeA s hr ⟨false, false, true, 3, 3⟩ (by rw [hf]; simp) rfl
@@ -225,32 +265,58 @@ theorem error_carried_fails_own : ¬ ErrorCarried ⟨.own, false⟩ := by
 
 /-- with the repaired step order the same schedule reports the error -/
 theorem repaired_fail_first_ok_last :
-    outcome ⟨.first, false⟩ treeA (schedFailFirst ++ [2]) = some ([⟨true, false, true, 3, 3⟩], 0, true) := by decide
+    outcome ⟨.first, false, false⟩ treeA (schedFailFirst ++ [2]) = some ([⟨true, false, true, 3, 3⟩], 0, true) := by decide
 
 /-- (b) a synchronous stage panics inside a pooled parent's completion handler: it was registered
 (`pending++`) but only the parent is completed by `execTask`'s recover ⇒ the run ends with
 `pending = 1` and NO callback — in both variants -/
-theorem no_completion_sync_panic_under_async (arg : CompleteArg) :
-    outcome ⟨arg, false⟩ treeB (List.replicate 9 0 ++ List.replicate 7 1) = some ([], 1, true) := by
-  cases arg <;> decide
+theorem no_completion_sync_panic_under_async (arg : CompleteArg) (rn : Bool) :
+    outcome ⟨arg, false, rn⟩ treeB (List.replicate 9 0 ++ List.replicate 7 1) = some ([], 1, true) := by
+  cases arg <;> cases rn <;> decide
 
 /-- the full-strength completion statement is false without the stage-level recover, whichever
 value `completeStage` hands to `complete` -/
-theorem completion_under_panic_fails (arg : CompleteArg) : ¬ CompletionUnderPanic ⟨arg, false⟩ := by
+theorem completion_under_panic_fails (arg : CompleteArg) (rn : Bool) : ¬ CompletionUnderPanic ⟨arg, false, rn⟩ := by
   intro h
-  obtain ⟨s, hr, ht, hf, _⟩ := outcome_elim (no_completion_sync_panic_under_async arg)
-  have := h treeB s hr ht
+  obtain ⟨s, hr, ht, hf, _⟩ := outcome_elim (no_completion_sync_panic_under_async arg rn)
+  have := h treeB (by decide) s hr ht
   rw [hf] at this
   cases this
 
 /-- with the stage-level recover the same tree completes once, with an error (given `first`) -/
 theorem repaired_sync_panic_under_async :
-    outcome ⟨.first, true⟩ treeB (List.replicate 9 0 ++ List.replicate 11 1)
+    outcome ⟨.first, true, false⟩ treeB (List.replicate 9 0 ++ List.replicate 11 1)
+      = some ([⟨true, false, true, 3, 3⟩], 0, true) := by decide
+
+/-- (c) the pool rejects the task of a registered stage (stopped pool, cancelled query context) and
+`Submit` returns without telling anybody: the stage never runs and is never completed ⇒ the run
+ends with `pending = 1` and NO callback — whatever the other two switches are -/
+theorem no_completion_rejected_task (arg : CompleteArg) (sr : Bool) :
+    outcome ⟨arg, sr, false⟩ treeX (List.replicate 9 0) = some ([], 1, true) := by
+  cases arg <;> cases sr <;> decide
+
+theorem completion_under_rejection_fails (arg : CompleteArg) (sr : Bool) :
+    ¬ CompletionUnderRejection ⟨arg, sr, false⟩ := by
+  intro h
+  obtain ⟨s, hr, ht, hf, _⟩ := outcome_elim (no_completion_rejected_task arg sr)
+  have := h treeX s hr ht
+  rw [hf] at this
+  cases this
+
+/-- with the notifying `Submit` the same tree completes once, with an error -/
+theorem repaired_rejected_task :
+    outcome ⟨.first, true, true⟩ treeX (List.replicate 13 0) = some ([⟨true, false, true, 2, 2⟩], 0, true) := by
+  decide
+
+/-- a pooled non-root stage whose `Plan()` panics is completed by `executeStage`'s recover; its
+sibling still runs; one callback, with the error -/
+theorem plan_panic_pooled_nonroot :
+    outcome ⟨.first, true, false⟩ treeP (List.replicate 14 0 ++ List.replicate 5 1)
       = some ([⟨true, false, true, 3, 3⟩], 0, true) := by decide
 
 /-- the same panic in the pooled child's own task is recovered and completed -/
 theorem recovered_pooled_panic :
-    outcome ⟨.own, false⟩ treeR (List.replicate 12 0 ++ [2, 2, 2] ++ [1, 1, 1, 1]) = some ([⟨true, true, true, 3, 3⟩], 0, true) := by
+    outcome ⟨.own, false, false⟩ treeR (List.replicate 12 0 ++ [2, 2, 2] ++ [1, 1, 1, 1]) = some ([⟨true, true, true, 3, 3⟩], 0, true) := by
   decide
 
 end Neg
@@ -258,7 +324,8 @@ end Neg
 /-! ## tie to the source (regenerated facts) -/
 
 /-- the variant of the model the current source selects -/
-def currentCfg : Cfg := cfgOf Generated.C19.completePassesFirstError Generated.C19.stageRecoversPanic
+def currentCfg : Cfg :=
+  cfgOf Generated.C19.completePassesFirstError Generated.C19.stageRecoversPanic Generated.C19.submitRejectNotifies
 
 theorem tie_completeStage : Generated.C19.completeStageSteps = completeStageOrder currentCfg.arg := by decide
 theorem tie_firstError : Generated.C19.firstErrorSteps = firstErrorOrder currentCfg.arg := by decide
@@ -271,37 +338,55 @@ theorem tie_pipelineExecuteStage :
 theorem tie_baseStageExecute : Generated.C19.baseStageExecuteSteps = baseStageExecuteOrder := by decide
 theorem tie_baseStageIsAsync : Generated.C19.baseStageIsAsyncSteps = baseStageIsAsyncOrder := by decide
 theorem tie_execTask : Generated.C19.execTaskSteps = execTaskOrder := by decide
+theorem tie_submit : Generated.C19.submitSteps = submitOrder currentCfg.rejectNotifies := by decide
+theorem tie_reject : Generated.C19.rejectSteps = rejectOrder currentCfg.rejectNotifies := by decide
 theorem tie_sendResponse : Generated.C19.sendResponseSteps = sendResponseOrder := by decide
 
 /-- what the model decides about error propagation for the source as it is *now*: with the
 repaired step order the full-strength theorem applies, with the original one its negation -/
 theorem error_carried_current :
     (currentCfg.arg = .first ∧ ErrorCarried currentCfg) ∨
-    (currentCfg = ⟨.own, false⟩ ∧ ¬ ErrorCarried currentCfg) ∨
-    (currentCfg = ⟨.own, true⟩) := by
+    (currentCfg = ⟨.own, false, false⟩ ∧ ¬ ErrorCarried currentCfg) ∨
+    (currentCfg.arg = .own ∧ currentCfg ≠ ⟨.own, false, false⟩) := by
   cases h : Generated.C19.completePassesFirstError with
   | true =>
-    have : currentCfg = ⟨.first, Generated.C19.stageRecoversPanic⟩ := by simp [currentCfg, cfgOf, h]
-    rw [this]; exact Or.inl ⟨rfl, error_carried _⟩
+    have : currentCfg = ⟨.first, Generated.C19.stageRecoversPanic, Generated.C19.submitRejectNotifies⟩ := by
+      simp [currentCfg, cfgOf, h]
+    rw [this]; exact Or.inl ⟨rfl, error_carried _ _⟩
   | false =>
-    cases h2 : Generated.C19.stageRecoversPanic with
-    | false =>
-      have : currentCfg = ⟨.own, false⟩ := by simp [currentCfg, cfgOf, h, h2]
-      rw [this]; exact Or.inr (Or.inl ⟨rfl, Neg.error_carried_fails_own⟩)
-    | true =>
-      have : currentCfg = ⟨.own, true⟩ := by simp [currentCfg, cfgOf, h, h2]
-      exact Or.inr (Or.inr this)
+    have harg : currentCfg.arg = .own := by simp [currentCfg, cfgOf, h]
+    by_cases hc : currentCfg = ⟨.own, false, false⟩
+    · rw [hc]; exact Or.inr (Or.inl ⟨rfl, Neg.error_carried_fails_own⟩)
+    · exact Or.inr (Or.inr ⟨harg, hc⟩)
 
-/-- … and about completion when stages panic -/
+/-- … about completion when stages panic -/
 theorem completion_under_panic_current :
     (currentCfg.stageRecover = true ∧ CompletionUnderPanic currentCfg) ∨
     (currentCfg.stageRecover = false ∧ ¬ CompletionUnderPanic currentCfg) := by
   cases h : Generated.C19.stageRecoversPanic with
   | true =>
-    have : currentCfg = ⟨currentCfg.arg, true⟩ := by simp [currentCfg, cfgOf, h]
-    rw [this]; exact Or.inl ⟨rfl, completion_under_panic_stmt _⟩
+    have : currentCfg = ⟨currentCfg.arg, true, currentCfg.rejectNotifies⟩ := by simp [currentCfg, cfgOf, h]
+    rw [this]; exact Or.inl ⟨rfl, completion_under_panic_stmt _ _⟩
   | false =>
-    have : currentCfg = ⟨currentCfg.arg, false⟩ := by simp [currentCfg, cfgOf, h]
-    rw [this]; exact Or.inr ⟨rfl, Neg.completion_under_panic_fails _⟩
+    have : currentCfg = ⟨currentCfg.arg, false, currentCfg.rejectNotifies⟩ := by simp [currentCfg, cfgOf, h]
+    rw [this]; exact Or.inr ⟨rfl, Neg.completion_under_panic_fails _ _⟩
+
+/-- … and about completion when a pool rejects a task -/
+theorem completion_under_rejection_current :
+    (currentCfg.stageRecover = true ∧ currentCfg.rejectNotifies = true ∧ CompletionUnderRejection currentCfg) ∨
+    (currentCfg.rejectNotifies = false ∧ ¬ CompletionUnderRejection currentCfg) ∨
+    (currentCfg.stageRecover = false ∧ currentCfg.rejectNotifies = true) := by
+  cases h : Generated.C19.submitRejectNotifies with
+  | false =>
+    have : currentCfg = ⟨currentCfg.arg, currentCfg.stageRecover, false⟩ := by simp [currentCfg, cfgOf, h]
+    rw [this]; exact Or.inr (Or.inl ⟨rfl, Neg.completion_under_rejection_fails _ _⟩)
+  | true =>
+    cases h2 : Generated.C19.stageRecoversPanic with
+    | true =>
+      have : currentCfg = ⟨currentCfg.arg, true, true⟩ := by simp [currentCfg, cfgOf, h, h2]
+      rw [this]; exact Or.inl ⟨rfl, rfl, completion_under_rejection_stmt _⟩
+    | false =>
+      have : currentCfg = ⟨currentCfg.arg, false, true⟩ := by simp [currentCfg, cfgOf, h, h2]
+      rw [this]; exact Or.inr (Or.inr ⟨rfl, rfl⟩)
 
 end LinVerif.Props.C19
